@@ -208,7 +208,7 @@ def replay_c11(payload):
 # ---------------------------------------------------------------------------
 
 SUM_PIPELINES = ["sn", "snb", "lt", "tee", "orl", "orr", "fos:sn", "rep:sn", "fos:rep:sn", "fos:lt",
-                 "rep:tee", "fos:tee", "fos:orl", "asn", "fos:asn"]
+                 "rep:tee", "fos:tee", "fos:orl", "asn", "fos:asn", "tdl", "fos:tdl"]
 
 # (universe, HasBefore, HasAfter, NotFoundToo, MaxErr, Truncate, Replay)
 SUM_MC = {
@@ -522,7 +522,9 @@ C14_GEN = {
               ("US1", "TRUE", "FALSE", "FALSE", 0, "FALSE", 30, {"verbose": 0, "show_output": False, "report_time": False, "decorate": "cdata"}),
               ("US2", "TRUE", "TRUE", "FALSE", 1, "FALSE", 80, {"verbose": 0, "show_output": True, "report_time": False, "logs": True}),
               ("US3", "TRUE", "FALSE", "TRUE", 0, "FALSE", 60, {"verbose": 1, "show_output": False, "report_time": False, "logs": True}),
-              ("US2", "FALSE", "TRUE", "FALSE", 2, "FALSE", 120, {"verbose": 0, "show_output": False, "report_time": False, "lazy": True})],
+              ("US2", "FALSE", "TRUE", "FALSE", 2, "FALSE", 120, {"verbose": 0, "show_output": False, "report_time": False, "lazy": True}),
+              ("US2np", "TRUE", "FALSE", "FALSE", 1, "FALSE", 80, {"verbose": 0, "show_output": False, "report_time": False, "lazy": True, "twin_features": True}),
+              ("US2", "TRUE", "FALSE", "FALSE", 0, "FALSE", 40, {"verbose": 0, "show_output": False, "report_time": False, "twin_features": True})],
     "thorough": [
                  ("US1", "TRUE", "TRUE", "FALSE", 1, "FALSE", 800, {"verbose": 0, "show_output": True, "report_time": False, "decorate": "basic"}),
                  ("US3", "TRUE", "FALSE", "TRUE", 1, "FALSE", 800, {"verbose": 1, "show_output": False, "report_time": False, "decorate": "basic"}),
@@ -536,7 +538,10 @@ C14_GEN = {
                  ("US3", "TRUE", "TRUE", "TRUE", 1, "FALSE", 800, {"verbose": 1, "show_output": False, "report_time": False, "logs": True}),
                  ("US2", "TRUE", "TRUE", "FALSE", 1, "FALSE", 400, {"verbose": 0, "show_output": True, "report_time": False, "decorate": "basic", "logs": True}),
                  ("US2", "FALSE", "TRUE", "FALSE", 2, "FALSE", 1500, {"verbose": 0, "show_output": False, "report_time": False, "lazy": True}),
-                 ("US1", "TRUE", "TRUE", "TRUE", 2, "TRUE", 1000, {"verbose": 1, "show_output": False, "report_time": False, "lazy": True})],
+                 ("US1", "TRUE", "TRUE", "TRUE", 2, "TRUE", 1000, {"verbose": 1, "show_output": False, "report_time": False, "lazy": True}),
+                 ("US2np", "TRUE", "TRUE", "FALSE", 1, "FALSE", 800, {"verbose": 0, "show_output": False, "report_time": False, "lazy": True, "twin_features": True}),
+                 ("US2", "TRUE", "TRUE", "FALSE", 1, "FALSE", 400, {"verbose": 0, "show_output": False, "report_time": False, "twin_features": True}),
+                 ("US1np", "FALSE", "TRUE", "TRUE", 2, "FALSE", 500, {"verbose": 0, "show_output": False, "report_time": False, "lazy": True})],
 }
 
 
@@ -567,7 +572,7 @@ def c14_judge(group, tag):
         info["json"].setdefault("dup_features", 0)
         lt = info["libtest"]
         for key, dflt in (("unpaired", 0), ("n_ok", 0), ("n_failed", 0), ("n_ignored", 0),
-                          ("suite_started", 0), ("suite_result", 0)):
+                          ("suite_started", 0), ("suite_result", 0), ("dup_started", 0)):
             lt.setdefault(key, dflt)
         if not lt.get("suite"):
             lt["suite"] = {"event": "", "passed": -1, "failed": -1, "ignored": -1}
@@ -625,7 +630,10 @@ def check_c14(tier):
             rec = recs_all[vid]
             nopath = not rec["universe"][0].get("path", True)
             sig = f"C14:{b[0]}:{b[1]}" + (":pathless" if nopath else "") + \
-                (":decorated-" + rec["opts"]["decorate"] if rec["opts"].get("decorate") else "")
+                (":decorated-" + rec["opts"]["decorate"] if rec["opts"].get("decorate") else "") + \
+                (":twin" if rec["opts"].get("twin_features") else "")
+            if b[1] == "steps-of-a-skipped-testcase-are-not-listed":
+                sig = f"C14:{b[0]}:{b[1]}"      # the shape is recognised exactly; variants do not matter
             violations.append({"sig": sig, "what": f"{b[0]}: {b[1]} (stream {vid})",
                                "replay": {"property": "C14", "reporter": b[0], "rule": b[1],
                                           "detail": v["detail"],
